@@ -149,6 +149,24 @@ def instrument_z3():
 # ---------------------------------------------------------------------------------------
 
 
+def patch_symbolic_repr():
+    """Untraced mode (no bytecode interception): C-level formatting needs a real `str` from
+    repr()/str() of a symbolic int.  Realise the value instead of returning CrossHair's lazy symbolic
+    string (which only works under tracing).  Realisation forks per concrete value, so every harness
+    gives formatted values a small explicit range (DESIGN.md 3.2)."""
+    from crosshair.libimpl import builtinslib as bl
+    from crosshair.core import realize
+    if getattr(bl.SymbolicInt, "_verif_repr", False):
+        return
+
+    def _repr(self):
+        return int.__repr__(realize(self))
+
+    bl.SymbolicInt.__repr__ = _repr
+    bl.SymbolicInt.__str__ = _repr
+    bl.SymbolicInt._verif_repr = True
+
+
 def parse_call_args(message, nfree):
     """Extracts the argument tuple from 'false when calling w(1, 2, True) ...'."""
     m = re.search(r"calling w\((.*?)\)(?: \(which|$)", message, re.S)
@@ -171,6 +189,7 @@ def run_check(module, conds, task):
     from crosshair.core import MessageType
     from vlib import rec
     instrument_z3()
+    patch_symbolic_repr()
     cond = conds[task["cond"]]
     shard = task["shard"]
     twin = task.get("twin", False)
